@@ -54,6 +54,10 @@ def initial_content(kind: str, st: dict | None) -> bytes:
     code = "value1 := 1;\nvalue2 := 2;\n"
     if kind == "empty":
         return b""
+    if kind == "binary7":    # binary by content (control characters throughout) although every byte is valid UTF-8
+        return bytes([1, 2, 3, 4, 5, 6, 7, 8, 14, 15, 16, 17, 18, 19, 20, 21, 22, 23, 24, 25, 26, 27, 28, 29, 30, 31, 127, 0]) * 40 + b"end"
+    if kind == "latin1":     # a text file in a legacy encoding: not valid UTF-8, still text
+        return ("value1 := 1;\nvalue2 := 2;\n").encode() + "note = 'caf\u00e9 M\u00fcnchen'\n".encode("latin-1") * 3
     if kind == "binary":     # not text, whatever the name says: the header belongs into a .license sibling
         return b"\x89PNG\r\x1a\x00\x00\x00IHDR" + bytes(x for x in range(256) if x != 10) + b"\xff\xfe\x00tail"
     if kind == "code" or st is None:
